@@ -652,7 +652,9 @@ class ListItem(BlockToken):
             if blanks > 1:
                 parse_buffer = tokenizer.ParseBuffer()
                 parse_buffer.loose = True
-                next_marker = cls.parse_marker(next_line) if next_line is not None else None
+                # (a thematic break made of the bullet character is no list item)
+                next_marker = (cls.parse_marker(next_line)
+                               if next_line is not None and not ThematicBreak.start(next_line) else None)
                 return (parse_buffer, indentation, prepend, leader, start_line), next_marker
         else:
             line_buffer.append(content)
